@@ -19,6 +19,8 @@
    Output:  one token per delivered event  <p|ok|closed|so<res>|sys<errno>>/<toclose 0|1>/<getsockopt calls>   (stops when the operation ended)
      NA <loop 0|1> <event>:<c0|f<errno>> …  net_callback_accept (loop = accept-loop) with the accept4 answer held ready
    Output:  one token per delivered event  <p|acc|nil>/<h|->/<accept4 calls>     (h: a handler fiber was scheduled with the accepted connection)
+     NK <x> …     cfun_net_connect's connect() loop: x = -1 (EINTR) | 0 (success) | 115 (EINPROGRESS) | errno
+   Output:  registered|raised<errno>|starved calls=<n> closes=<n>
    The case groups of the two switches are the regenerated Gen.Net lists.
      S <act> …      the listener-slot registry of ONE stream (World.runCurrent: guards = regenerated Gen.Stream facts):
         s<f>:<r|w> (fiber f starts an operation)  |  e<f> (the implementation ended fiber f's operation)  |  c (janet_stream_close)
@@ -255,6 +257,20 @@ def runC : List String → List String → Option (List String)
       if o.res == .pending then runC ts (showC o :: acc) else some ((showC o :: acc).reverse)
     | none => none
 
+def parseConn (t : String) : Option ConnAns :=
+  if t == "-1" then some .eintr else if t == "0" then some .ok else if t == "115" then some .inprogress else t.toNat?.map .err
+
+def runK (ts : List String) : String :=
+  match ts.mapM parseConn with
+  | some as =>
+    let o := connectCall as
+    let r := match o.res with
+      | .registered => "registered"
+      | .raised e => s!"raised{e}"
+      | .starved => "starved"
+    s!"{r} calls={o.calls} closes={o.closes}"
+  | none => "parse-error"
+
 def showA (o : AOut) : String :=
   let r := match o.res with
     | .pending => "p"
@@ -329,6 +345,7 @@ def step (_ : Unit) (toks : List String) : Unit × String :=
       | _, _, _, _, _, _ => ((), "parse-error")
     | _, _, _, _, _, _, _ => ((), "parse-error")
   | "S" :: rest => ((), String.intercalate " " (S.runS rest JanetModel.Stream.World.init []))
+  | "NK" :: rest => ((), N.runK rest)
   | "NC" :: rest =>
     match N.runC rest [] with
     | some out => ((), String.intercalate " " out)
